@@ -378,7 +378,9 @@ pub fn style_ok(text: &str, style: StrStyle) -> bool {
 			// problems: every line is indented by the printer, so any text works as long as it ends in '\n' and the first
 			// line is non-empty; a line consisting of whitespace only is kept verbatim after the indentation.
 			// the first line fixes the indentation, so it must not itself begin with white space
-			text.ends_with('\n') && !text.starts_with(['\n', ' ', '\t']) && !text.contains('\r')
+			// (blank lines before the first indented line are allowed and belong to the content)
+			let first = text.split('\n').find(|l| !l.is_empty());
+			text.ends_with('\n') && !text.contains('\r') && first.is_some_and(|l| !l.starts_with([' ', '\t']))
 		}
 	}
 }
